@@ -78,7 +78,9 @@ Definition server_id := nat.   (* one server connection *)
 Definition cid := nat.         (* one client task *)
 Definition key := (db * user)%type.   (* PoolIdentifier *)
 
-Record cfg := { cgen : gen; cpools : list (db * (pdef * list user)) }.
+(** [cidle] = general.idle_client_in_transaction_timeout in ms (0 = none): the one setting of [general] a client
+    task reads from CONFIG itself (config.rs:1632); everything else of [general] is abstract in [cgen]. *)
+Record cfg := { cgen : gen; cidle : nat; cpools : list (db * (pdef * list user)) }.
 
 Definition pools_t := list (key * (hash * pool_id)).
 Record store := { config : cfg; pools : pools_t }.
@@ -123,7 +125,7 @@ Definition sub_cfg (a b : list (db * (pdef * list user))) : bool :=
 
 (** [old_config != new_config] (config.rs:1669), negated *)
 Definition cfg_eqb (a b : cfg) : bool :=
-  (cgen a =? cgen b) && sub_cfg (cpools a) (cpools b) && sub_cfg (cpools b) (cpools a).
+  (cgen a =? cgen b) && (cidle a =? cidle b) && sub_cfg (cpools a) (cpools b) && sub_cfg (cpools b) (cpools a).
 
 (** pool names are the keys of a HashMap *)
 Definition wf_cfg (c : cfg) : Prop := NoDup (map fst (cpools c)).
@@ -191,7 +193,9 @@ Definition reload (s : store) (fo : file_outcome) (next : pool_id) : store * res
 
 (** ------------------------------------------------------------------ clients and servers *)
 
-Record client := { cdb : db; cuser : user; cclone : pool_id; cheld : option server_id }.
+(** [ctmo]: the idle-in-transaction timeout this client's CURRENT transaction runs under — read once, when the
+    server is checked out (client.rs:1208-1211), not while the transaction is open *)
+Record client := { cdb : db; cuser : user; cclone : pool_id; cheld : option server_id; ctmo : nat }.
 Record server := { sid : server_id; spool : pool_id; sholder : option cid }.
 
 Record world := {
@@ -201,7 +205,9 @@ Record world := {
   clients : list (cid * client);
   servers : list server;       (* open server connections; idle ones of a pool in hand-out order *)
   next_srv : server_id;
-  validated : list pool_id     (* pool objects whose [validated] flag is set (shared by all clones) *)
+  validated : list pool_id;    (* pool objects whose [validated] flag is set (shared by all clones) *)
+  paused : list key            (* PAUSEd pools.  The flag is an Arc shared by every clone and handed on to the object a
+                                  reload builds for the same key (pool.rs from_config, dae4e52): one flag per key *)
 }.
 
 Fixpoint cl_lookup (c : cid) (l : list (cid * client)) : option client :=
@@ -226,7 +232,7 @@ Definition is_held (x : server) : bool := match sholder x with Some _ => true | 
 Definition gc (w : world) : world :=
   {| st := st w; objs := objs w; next_pool := next_pool w; clients := clients w;
      servers := filter (fun x => alive (st w) (clients w) (spool x) || is_held x) (servers w);
-     next_srv := next_srv w; validated := validated w |}.
+     next_srv := next_srv w; validated := validated w; paused := paused w |}.
 
 Definition idle_of (p : pool_id) (x : server) : bool :=
   (spool x =? p) && negb (is_held x).
@@ -256,7 +262,10 @@ Inductive op :=
 | OConnect (c : cid) (d : db) (u : user)
 | OBegin (c : cid)
 | OEnd (c : cid)
-| ODisconnect (c : cid).
+| ODisconnect (c : cid)
+| OIdle (c : cid) (ms : nat)        (* the client sends nothing for [ms] inside its open transaction *)
+| OPause (k : key)                  (* admin: PAUSE db,user *)
+| OResume (k : key).                (* admin: RESUME db,user *)
 
 Inductive obs :=
 | ObReload (r : result)
@@ -265,24 +274,33 @@ Inductive obs :=
 | ObBegun (p : pool_id) (s : server_id) (fresh : bool)
 | ObEnded
 | ObGone
-| ObNop.
+| ObNop
+| ObIdled                           (* nothing happened *)
+| ObTimedOut                        (* "idle transaction timeout": the transaction is over, the server went back *)
+| ObBlocked                         (* the pool is paused: the client waits in wait_paused() *)
+| ObAdmin (ok : bool).
 
 Definition actor (o : op) : option cid :=
   match o with
-  | OReload _ => None
-  | OConnect c _ _ | OBegin c | OEnd c | ODisconnect c => Some c
+  | OReload _ | OPause _ | OResume _ => None
+  | OConnect c _ _ | OBegin c | OEnd c | ODisconnect c | OIdle c _ => Some c
   end.
+
+Definition has_pool (s : store) (k : key) : bool :=
+  match plookup k (pools s) with Some _ => true | None => false end.
 
 Definition with_clients (w : world) (cl : list (cid * client)) : world :=
   {| st := st w; objs := objs w; next_pool := next_pool w; clients := cl; servers := servers w; next_srv := next_srv w;
-     validated := validated w |}.
+     validated := validated w; paused := paused w |}.
 
 Definition step0 (w : world) (o : op) : world * obs :=
   match o with
   | OReload fo =>
       let '(s', r, n', new) := reload (st w) fo (next_pool w) in
       ({| st := s'; objs := new ++ objs w; next_pool := n'; clients := clients w; servers := servers w;
-          next_srv := next_srv w; validated := validated w |}, ObReload r)
+          next_srv := next_srv w; validated := validated w;
+          (* pool.rs from_config (2ecc068): the pools that are no longer registered are resumed, whatever their flag *)
+          paused := match r with ROk true => filter (has_pool s') (paused w) | _ => paused w end |}, ObReload r)
   | OConnect c d u =>
       match cl_lookup c (clients w) with
       | Some _ => (w, ObNop)
@@ -290,14 +308,14 @@ Definition step0 (w : world) (o : op) : world * obs :=
           match plookup (d, u) (pools (st w)) with
           | None => (w, ObNoPool)                                                      (* client.rs:575-592 *)
           | Some (_, p) =>
-              let cl := cl_set c {| cdb := d; cuser := u; cclone := p; cheld := None |} (clients w) in   (* client.rs:893-898 *)
+              let cl := cl_set c {| cdb := d; cuser := u; cclone := p; cheld := None; ctmo := 0 |} (clients w) in   (* client.rs:893-898 *)
               if existsb (Nat.eqb p) (validated w) then (with_clients w cl, ObConnected p)
               else
                 (* client.rs:740-741: the first client of a pool object that was built without validate_config
                    runs pool.validate(): one server connection is opened, its parameters are read, it goes back idle *)
                 ({| st := st w; objs := objs w; next_pool := next_pool w; clients := cl;
                     servers := {| sid := next_srv w; spool := p; sholder := None |} :: servers w;
-                    next_srv := S (next_srv w); validated := p :: validated w |}, ObConnected p)
+                    next_srv := S (next_srv w); validated := p :: validated w; paused := paused w |}, ObConnected p)
           end
       end
   | OBegin c =>
@@ -307,20 +325,22 @@ Definition step0 (w : world) (o : op) : world * obs :=
           match cheld x with
           | Some _ => (w, ObNop)
           | None =>
+              if existsb (key_eqb (cdb x, cuser x)) (paused w) then (w, ObBlocked)     (* client.rs:1078 pool.wait_paused() *)
+              else
               match plookup (cdb x, cuser x) (pools (st w)) with
               | None => (with_clients w (cl_remove c (clients w)), ObNoPool)           (* client.rs:1081, 1686-1707 *)
               | Some (_, p) =>
                   match take_idle p c (servers w) with
                   | Some (s, l') =>
                       ({| st := st w; objs := objs w; next_pool := next_pool w;
-                          clients := cl_set c {| cdb := cdb x; cuser := cuser x; cclone := p; cheld := Some s |} (clients w);
-                          servers := l'; next_srv := next_srv w; validated := validated w |}, ObBegun p s false)
+                          clients := cl_set c {| cdb := cdb x; cuser := cuser x; cclone := p; cheld := Some s; ctmo := cidle (config (st w)) |} (clients w);
+                          servers := l'; next_srv := next_srv w; validated := validated w; paused := paused w |}, ObBegun p s false)
                   | None =>
                       let s := next_srv w in
                       ({| st := st w; objs := objs w; next_pool := next_pool w;
-                          clients := cl_set c {| cdb := cdb x; cuser := cuser x; cclone := p; cheld := Some s |} (clients w);
+                          clients := cl_set c {| cdb := cdb x; cuser := cuser x; cclone := p; cheld := Some s; ctmo := cidle (config (st w)) |} (clients w);
                           servers := {| sid := s; spool := p; sholder := Some c |} :: servers w;
-                          next_srv := S s; validated := validated w |}, ObBegun p s true)
+                          next_srv := S s; validated := validated w; paused := paused w |}, ObBegun p s true)
                   end
               end
           end
@@ -333,8 +353,8 @@ Definition step0 (w : world) (o : op) : world * obs :=
           | None => (w, ObNop)
           | Some _ =>
               ({| st := st w; objs := objs w; next_pool := next_pool w;
-                  clients := cl_set c {| cdb := cdb x; cuser := cuser x; cclone := cclone x; cheld := None |} (clients w);
-                  servers := release c (servers w); next_srv := next_srv w; validated := validated w |}, ObEnded)
+                  clients := cl_set c {| cdb := cdb x; cuser := cuser x; cclone := cclone x; cheld := None; ctmo := ctmo x |} (clients w);
+                  servers := release c (servers w); next_srv := next_srv w; validated := validated w; paused := paused w |}, ObEnded)
           end
       end
   | ODisconnect c =>
@@ -342,8 +362,34 @@ Definition step0 (w : world) (o : op) : world * obs :=
       | None => (w, ObNop)
       | Some _ =>
           ({| st := st w; objs := objs w; next_pool := next_pool w; clients := cl_remove c (clients w);
-              servers := release c (servers w); next_srv := next_srv w; validated := validated w |}, ObGone)
+              servers := release c (servers w); next_srv := next_srv w; validated := validated w; paused := paused w |}, ObGone)
       end
+  | OIdle c ms =>
+      match cl_lookup c (clients w) with
+      | None => (w, ObNop)
+      | Some x =>
+          match cheld x with
+          | None => (w, ObNop)
+          | Some _ =>
+              (* client.rs:1227-1259: timeout(idle_client_timeout_duration, read_message) with the duration computed
+                 BEFORE the transaction loop; Err => "idle transaction timeout", break: checkin_cleanup, server released *)
+              if negb (ctmo x =? 0) && (ctmo x <=? ms)
+              then ({| st := st w; objs := objs w; next_pool := next_pool w;
+                       clients := cl_set c {| cdb := cdb x; cuser := cuser x; cclone := cclone x; cheld := None; ctmo := ctmo x |} (clients w);
+                       servers := release c (servers w); next_srv := next_srv w; validated := validated w; paused := paused w |}, ObTimedOut)
+              else (w, ObIdled)
+          end
+      end
+  | OPause k =>                                                                        (* admin.rs:845-875 *)
+      if has_pool (st w) k
+      then ({| st := st w; objs := objs w; next_pool := next_pool w; clients := clients w; servers := servers w;
+               next_srv := next_srv w; validated := validated w; paused := k :: paused w |}, ObAdmin true)
+      else (w, ObAdmin false)
+  | OResume k =>
+      if has_pool (st w) k
+      then ({| st := st w; objs := objs w; next_pool := next_pool w; clients := clients w; servers := servers w;
+               next_srv := next_srv w; validated := validated w; paused := filter (fun k' => negb (key_eqb k' k)) (paused w) |}, ObAdmin true)
+      else (w, ObAdmin false)
   end.
 
 Definition step (w : world) (o : op) : world * obs :=
@@ -393,17 +439,18 @@ Definition op_wf (o : op) : Prop := match o with OReload fo => fo_wf fo | _ => T
 
 End WithHash.
 
-Definition empty_cfg : cfg := {| cgen := 0; cpools := [] |}.
+Definition empty_cfg : cfg := {| cgen := 0; cidle := 0; cpools := [] |}.
 Definition empty_world : world :=
   {| st := {| config := empty_cfg; pools := [] |}; objs := []; next_pool := 0; clients := []; servers := []; next_srv := 0;
-     validated := [] |}.
+     validated := []; paused := [] |}.
 
 (** -------------------------------------------------------------- printable views for the tie *)
 
 Definition result_code (r : result) : nat :=
   match r with RErr => 0 | ROk false => 1 | ROk true => 2 | RPanic => 3 end.
 
-(** (kind, a, b, c): 0 reload(result) | 1 connected(pool) | 2 no pool | 3 begun(pool, server, fresh) | 4 ended | 5 gone | 6 nop *)
+(** (kind, a, b, c): 0 reload(result) | 1 connected(pool) | 2 no pool | 3 begun(pool, server, fresh) | 4 ended | 5 gone | 6 nop |
+    7 idled | 8 idle transaction timeout | 9 blocked (paused) | 10 admin(ok) *)
 Definition obs_code (o : obs) : nat * nat * nat * nat :=
   match o with
   | ObReload r => (0, result_code r, 0, 0)
@@ -413,6 +460,10 @@ Definition obs_code (o : obs) : nat * nat * nat * nat :=
   | ObEnded => (4, 0, 0, 0)
   | ObGone => (5, 0, 0, 0)
   | ObNop => (6, 0, 0, 0)
+  | ObIdled => (7, 0, 0, 0)
+  | ObTimedOut => (8, 0, 0, 0)
+  | ObBlocked => (9, 0, 0, 0)
+  | ObAdmin b => (10, if b then 1 else 0, 0, 0)
   end.
 
 Definition view_server (x : server) : nat * nat * nat :=
@@ -450,7 +501,7 @@ Fixpoint trace2 (hashf : pdef -> hash) (w : world) (l : list op) :=
                | OReload _ => view w1
                | _ => (0, [], [], map view_server (servers w1))   (* client steps do not touch CONFIG/POOLS (client_step_store) *)
                end in
-      (obs_code ob, v, view_objs w1) :: trace2 hashf w1 t
+      (obs_code ob, v, view_objs w1, (cidle (config (st w1)), paused w1)) :: trace2 hashf w1 t
   end.
 
 (** build outcomes as data: the listed (pool, user) pairs fail / panic, all others are built *)
